@@ -1,1 +1,3 @@
-
+import FfcxProofs.C07
+import FfcxProofs.C08
+import FfcxProofs.C17
